@@ -1,4 +1,4 @@
-package main
+package main_test
 
 // Request generators (DESIGN.md §3). Every random choice is drawn from rapid.
 
